@@ -293,7 +293,7 @@ dec_text!(c03_dec_o_p0, c03_dec_o_p1, c03_dec_o_p2, c03_dec_o_p3, c03_dec_o_body
 /// Dynamic (`Value`) target for string-like signatures: the path taken for every variant payload
 /// (`ValueSeed::visit_borrowed_str`), which must apply the same validity rules as the typed path.
 macro_rules! dec_text_dyn {
-    ($h:ident, $pos:expr, $sig:expr, |$t:ident| $content_ok:expr, |$v:ident| $text:expr) => {
+    ($h:ident, $pos:expr, $N:expr, $sig:expr, |$t:ident| $content_ok:expr, |$v:ident| $text:expr) => {
         #[kani::proof]
         #[kani::unwind(10)]
         #[kani::stub(alloc::fmt::format, no_format)]
@@ -301,16 +301,16 @@ macro_rules! dec_text_dyn {
         #[kani::stub(core::str::from_utf8, naive_from_utf8)]
         #[kani::stub(core::slice::memchr::memchr, naive_memchr)]
         fn $h() {
-            let buf: [u8; 8] = kani::any();
+            let buf: [u8; $N] = kani::any();
             let len: usize = kani::any();
-            kani::assume(len <= 8);
+            kani::assume(len <= $N);
             let be: bool = kani::any();
             let data = Data::new(&buf[..len], ctx($pos, be));
             let r = data.deserialize_for_dynamic_signature::<_, zvariant::Value<'_>>($sig);
             fn content_ok($t: &[u8]) -> bool {
                 $content_ok
             }
-            let model = ref_string::<$pos, 8>(&buf, len, be, content_ok);
+            let model = ref_string::<$pos, $N>(&buf, len, be, content_ok);
             match (&r, model) {
                 (Ok(($v, used)), Some((start, n, mused))) => {
                     kani::cover!(true, "valid encoding accepted");
@@ -325,7 +325,7 @@ macro_rules! dec_text_dyn {
                     }
                 }
                 (Err(_), None) => {
-                    kani::cover!(len == 8, "full-length input rejected");
+                    kani::cover!(len == $N, "full-length input rejected");
                 }
                 (Ok(_), None) => assert!(false, "decoder accepted an invalid encoding"),
                 (Err(_), Some(_)) => assert!(false, "decoder rejected a valid encoding"),
@@ -335,15 +335,15 @@ macro_rules! dec_text_dyn {
         }
     };
 }
-dec_text_dyn!(c03_dyn_o_p0, 0, Signature::ObjectPath, |t| crate::refmodel::names::object_path(t), |v| match v {
+dec_text_dyn!(c03_dyn_o_p0, 0, 7, Signature::ObjectPath, |t| crate::refmodel::names::object_path(t), |v| match v {
     zvariant::Value::ObjectPath(p) => Some(p.as_str()),
     _ => None,
 });
-dec_text_dyn!(c03_dyn_o_p2, 2, Signature::ObjectPath, |t| crate::refmodel::names::object_path(t), |v| match v {
+dec_text_dyn!(c03_dyn_o_p2, 2, 8, Signature::ObjectPath, |t| crate::refmodel::names::object_path(t), |v| match v {
     zvariant::Value::ObjectPath(p) => Some(p.as_str()),
     _ => None,
 });
-dec_text_dyn!(c03_dyn_s_p0, 0, Signature::Str, |_t| true, |v| match v {
+dec_text_dyn!(c03_dyn_s_p0, 0, 7, Signature::Str, |_t| true, |v| match v {
     zvariant::Value::Str(p) => Some(p.as_str()),
     _ => None,
 });
